@@ -801,3 +801,157 @@ func boolPhiCuts(fn *ssa.Function, cut map[[2]int]bool, classify func(cond ssa.V
 		}
 	}
 }
+
+// ---------------------------------------------------------------------------
+// the search cache's interface, by what the methods do
+
+// cacheAccess is one use of the result cache by the search layers.
+type cacheAccess struct {
+	kind    string // "get" or "put"
+	query   ssa.Value
+	options ssa.Value
+	list    ssa.Value // put only
+}
+
+const (
+	scGetName  = "(*" + cachePkg + ".SearchCache).Get"
+	scPutName  = "(*" + cachePkg + ".SearchCache).Put"
+	lruGetName = "(*" + cachePkg + ".LRUCache).Get"
+	lruPutName = "(*" + cachePkg + ".LRUCache).Put"
+)
+
+// cacheOp classifies a call as a lookup in or a store into the search cache:
+// Get(query, options) / Put(query, options, list), or the keyed form — a
+// method of SearchCache that hands its string parameter straight to the LRU
+// cache as the key, called with a key that a key-making method of SearchCache
+// (one that returns generateCacheKey of its own parameters) produced from
+// (query, options).
+func cacheOp(call *ssa.Call) (cacheAccess, bool) {
+	a := call.Common().Args
+	switch ssau.CallName(call) {
+	case scGetName:
+		if len(a) == 3 {
+			return cacheAccess{"get", a[1], a[2], nil}, true
+		}
+	case scPutName:
+		if len(a) == 4 {
+			return cacheAccess{"put", a[1], a[2], a[3]}, true
+		}
+	}
+	g := call.Common().StaticCallee()
+	kind, ki, li := keyedCacheMethod(g)
+	if kind == "" || ki >= len(a) {
+		return cacheAccess{}, false
+	}
+	kc, ok := ssau.ResolveCell(a[ki]).(*ssa.Call)
+	if !ok {
+		return cacheAccess{}, false
+	}
+	qi, oi := keyMaker(kc.Common().StaticCallee(), 0)
+	if qi < 0 || qi >= len(kc.Common().Args) || oi >= len(kc.Common().Args) {
+		return cacheAccess{}, false
+	}
+	acc := cacheAccess{kind: kind, query: kc.Common().Args[qi], options: kc.Common().Args[oi]}
+	if kind == "put" {
+		if li >= len(a) {
+			return cacheAccess{}, false
+		}
+		acc.list = a[li]
+	}
+	return acc, true
+}
+
+// keyedCacheMethod: g is a method of SearchCache other than Get/Put that
+// passes its string parameter #ki as the key of LRUCache.Get ("get") or
+// LRUCache.Put ("put", the stored list deriving from parameter #li).
+func keyedCacheMethod(g *ssa.Function) (kind string, ki, li int) {
+	if g == nil || g.Blocks == nil || g.Signature.Recv() == nil || ssau.NamedOf(g.Signature.Recv().Type()) != cachePkg+".SearchCache" {
+		return "", 0, 0
+	}
+	if n := g.Name(); n == "Get" || n == "Put" {
+		return "", 0, 0
+	}
+	ssau.ForEachInstr(g, false, func(in ssa.Instruction) {
+		call, ok := in.(*ssa.Call)
+		if !ok {
+			return
+		}
+		n := ssau.CallName(call)
+		if n != lruGetName && n != lruPutName {
+			return
+		}
+		kp, ok := call.Common().Args[1].(*ssa.Parameter)
+		if !ok {
+			return
+		}
+		ki = paramIdx(g, kp)
+		if n == lruGetName {
+			kind = "get"
+			return
+		}
+		kind = "put"
+		for i, p := range g.Params {
+			if srSliceAny(p.Type()) {
+				li = i
+			}
+		}
+	})
+	return
+}
+
+// srSliceAny: a slice of search results of the cache or the database package.
+func srSliceAny(t types.Type) bool {
+	sl, ok := t.Underlying().(*types.Slice)
+	if !ok {
+		return false
+	}
+	n := ssau.NamedOf(sl.Elem())
+	return strings.HasSuffix(n, ".SearchResult")
+}
+
+// keyMaker: k is a method of SearchCache every return of which is
+// generateCacheKey(q, o) of two of its own parameters (or of such a method);
+// the indices of those parameters (-1 when k is not a key maker).
+func keyMaker(k *ssa.Function, d int) (qi, oi int) {
+	if k == nil || k.Blocks == nil || d > 2 || k.Signature.Recv() == nil || ssau.NamedOf(k.Signature.Recv().Type()) != cachePkg+".SearchCache" {
+		return -1, -1
+	}
+	if k.Name() == "generateCacheKey" {
+		return 1, 2
+	}
+	qi, oi = -1, -1
+	for _, ret := range ssau.ReturnsOf(k) {
+		call, ok := ssau.ResultValue(ret, 0).(*ssa.Call)
+		if !ok {
+			return -1, -1
+		}
+		iq, io := keyMaker(call.Common().StaticCallee(), d+1)
+		if iq < 0 || iq >= len(call.Common().Args) || io >= len(call.Common().Args) {
+			return -1, -1
+		}
+		qp, ok1 := call.Common().Args[iq].(*ssa.Parameter)
+		op, ok2 := call.Common().Args[io].(*ssa.Parameter)
+		if !ok1 || !ok2 {
+			return -1, -1
+		}
+		q2, o2 := paramIdx(k, qp), paramIdx(k, op)
+		if (qi >= 0 && qi != q2) || (oi >= 0 && oi != o2) {
+			return -1, -1
+		}
+		qi, oi = q2, o2
+	}
+	return
+}
+
+// cacheOpsIn lists the cache accesses of kind ("get"/"put") made by fn.
+func cacheOpsIn(fn *ssa.Function, kind string) []*ssa.Call {
+	var out []*ssa.Call
+	ssau.ForEachInstr(fn, false, func(in ssa.Instruction) {
+		if call, ok := in.(*ssa.Call); ok {
+			if acc, ok := cacheOp(call); ok && acc.kind == kind {
+				out = append(out, call)
+			}
+		}
+	})
+	return out
+}
